@@ -13,19 +13,19 @@ import (
 
 type Value interface{}
 
-type VInt struct{ T *Term }  // integers (mathematical value), floats (bit pattern)
-type VBool struct{ T *Term } // booleans
-type VStr struct{ T *Term }  // strings (Seq of bytes)
+type VInt struct{ T *Term }   // integers (mathematical value), floats (bit pattern)
+type VBool struct{ T *Term }  // booleans
+type VStr struct{ T *Term }   // strings (Seq of bytes)
 type VErr struct{ Nil *Term } // error values abstracted to nil / non-nil
 
 // VSlice is a window [Lo,Hi) of an array object's content.
 type VSlice struct {
-	Arr        *Obj
-	Lo, Hi     *Term
-	Cap        *Term
-	IsNil      *Term
-	Epoch      int // buffer epoch at creation when Arr is a buffer view
-	Elem       types.Type
+	Arr    *Obj
+	Lo, Hi *Term
+	Cap    *Term
+	IsNil  *Term
+	Epoch  int // buffer epoch at creation when Arr is a buffer view
+	Elem   types.Type
 }
 
 // VPtr points to a whole object (cell, struct, array, buffer, dyn, mutex ...).
@@ -85,13 +85,13 @@ type VOpaque struct {
 }
 
 type Obj struct {
-	ID   int
-	Kind string // cell struct array buffer dyn map mutex opaque
-	Type types.Type
-	Name string
-	Prov string // fresh | param:<n> | global:<n> | recv
+	ID     int
+	Kind   string // cell struct array buffer dyn map mutex opaque
+	Type   types.Type
+	Name   string
+	Prov   string          // fresh | param:<n> | global:<n> | recv
 	BornIn *ssa.BasicBlock // header of the innermost loop in whose body the object was allocated (nil: outside loops)
-	Guard *Obj  // the mutex object guarding this object (maps / fields living next to a mutex)
+	Guard  *Obj            // the mutex object guarding this object (maps / fields living next to a mutex)
 }
 
 type Content struct {
@@ -124,57 +124,57 @@ type deferred struct {
 }
 
 type State struct {
-	pc      []*Term
-	env     map[ssa.Value]Value
-	heap    map[*Obj]*Content
-	alloc   *Term // ghost: bytes requested from the allocator so far
-	defers  []deferred
-	acq     int // lock acquisitions on this path
-	dead    bool
-	trace   []string
-	entryOf map[*ssa.BasicBlock]*State // loop header -> state snapshot on loop entry
-	variant map[*ssa.BasicBlock]*Term
-	callOrd map[string]int // per callee short name: calls seen so far on this path
-	lenv    map[string]Value // loop-carried names visible to contract expressions
-	lenvOwner *ssa.BasicBlock
-	locals  map[string]Value // source-level local variables (from ssa DebugRef)
-	domain  []*Term          // message layer: callee ok-domains assumed on this path
-	canon   []*Term          // message layer: round-trip domain collected on this path
-	calls   []*CallRecord
-	marks   []string
-	written map[string]bool // receiver fields stored to (objID.field)
-	allocC  int64 // measured: sum of the constant parts of the allocation bounds on this path
-	allocA  int64 // measured: largest per-byte coefficient on this path
+	pc           []*Term
+	env          map[ssa.Value]Value
+	heap         map[*Obj]*Content
+	alloc        *Term // ghost: bytes requested from the allocator so far
+	defers       []deferred
+	acq          int // lock acquisitions on this path
+	dead         bool
+	trace        []string
+	entryOf      map[*ssa.BasicBlock]*State // loop header -> state snapshot on loop entry
+	variant      map[*ssa.BasicBlock]*Term
+	callOrd      map[string]int   // per callee short name: calls seen so far on this path
+	lenv         map[string]Value // loop-carried names visible to contract expressions
+	lenvOwner    *ssa.BasicBlock
+	locals       map[string]Value // source-level local variables (from ssa DebugRef)
+	domain       []*Term          // message layer: callee ok-domains assumed on this path
+	canon        []*Term          // message layer: round-trip domain collected on this path
+	calls        []*CallRecord
+	marks        []string
+	written      map[string]bool // receiver fields stored to (objID.field)
+	allocC       int64           // measured: sum of the constant parts of the allocation bounds on this path
+	allocA       int64           // measured: largest per-byte coefficient on this path
 	allocUnknown bool
-	acqState *Term // registry: guarded map state right after the lock was acquired
-	relState *Term // registry: guarded map state when the lock was released
+	acqState     *Term // registry: guarded map state right after the lock was acquired
+	relState     *Term // registry: guarded map state when the lock was released
 }
 
 func (s *State) clone() *State {
 	n := &State{
-		pc:      append([]*Term{}, s.pc...),
-		env:     make(map[ssa.Value]Value, len(s.env)),
-		heap:    make(map[*Obj]*Content, len(s.heap)),
-		alloc:   s.alloc,
-		defers:  append([]deferred{}, s.defers...),
-		acq:     s.acq,
-		trace:   append([]string{}, s.trace...),
-		entryOf: map[*ssa.BasicBlock]*State{},
-		variant: map[*ssa.BasicBlock]*Term{},
-		callOrd: map[string]int{},
-		lenv:    s.lenv,
-		lenvOwner: s.lenvOwner,
-		locals:  s.locals,
-		domain:  append([]*Term{}, s.domain...),
-		canon:   append([]*Term{}, s.canon...),
-		calls:   append([]*CallRecord{}, s.calls...),
-		marks:   append([]string{}, s.marks...),
-		written: map[string]bool{},
-		acqState: s.acqState,
-		allocC: s.allocC,
-		allocA: s.allocA,
+		pc:           append([]*Term{}, s.pc...),
+		env:          make(map[ssa.Value]Value, len(s.env)),
+		heap:         make(map[*Obj]*Content, len(s.heap)),
+		alloc:        s.alloc,
+		defers:       append([]deferred{}, s.defers...),
+		acq:          s.acq,
+		trace:        append([]string{}, s.trace...),
+		entryOf:      map[*ssa.BasicBlock]*State{},
+		variant:      map[*ssa.BasicBlock]*Term{},
+		callOrd:      map[string]int{},
+		lenv:         s.lenv,
+		lenvOwner:    s.lenvOwner,
+		locals:       s.locals,
+		domain:       append([]*Term{}, s.domain...),
+		canon:        append([]*Term{}, s.canon...),
+		calls:        append([]*CallRecord{}, s.calls...),
+		marks:        append([]string{}, s.marks...),
+		written:      map[string]bool{},
+		acqState:     s.acqState,
+		allocC:       s.allocC,
+		allocA:       s.allocA,
 		allocUnknown: s.allocUnknown,
-		relState: s.relState,
+		relState:     s.relState,
 	}
 	for k, v := range s.env {
 		n.env[k] = v
